@@ -160,28 +160,21 @@ theorem callbacks_once_in_order [DecidableEq V] {t : Tables} (ht : TablesOk t) (
 
 /-! ## End to end -/
 
-/-- **e2e_write / e2e_read**: if the client's export, the wire and the node's import hand the driver a value equal to
-the caller's (round-trip law of C02, hypothesis `hwr`), and the node's export, the wire and the client's import give
-back a value equal to what the driver returned (`hrd`), then after `setParameter` the driver has received a value equal
-to the caller's and the cache holds a value equal to the driver's answer, stamped not later than the clock — for every
-datatype, as far as it satisfies the two laws -/
-theorem e2e_write {t : Tables} (ht : TablesOk t) (mp : Maps) (imp : Str → Str → J → Option V)
-    (behave : Call V → Outcome) (c : Codecs V J) (drv : V → V) (eqv : V → V → Prop)
-    (ident m p : Str) (s : State V) (now : Int) (tnode : TQ) (v : V)
-    (hident : denoted mp t.writeReply (some ident) = some (m, p)) (hparam : mp.isParam m p = true)
-    (htq : tnode ≠ .bad)
-    (hwr : ∃ j v', c.clientExport v = some j ∧ c.nodeImport (c.wire j) = some v' ∧ eqv v' v)
-    (hrd : ∀ r, ∃ r', imp m p (c.wire (c.nodeExport r)) = some r' ∧ eqv r' r) :
-    let res := e2eWrite t mp imp behave c drv ident s now tnode v
-    WriteMirrors eqv drv v res.driverGot (dictGet res.state.cache (m, p)) ∧
-      ∀ it, dictGet res.state.cache (m, p) = some it → NotFuture now it := by
-  obtain ⟨j, v', hj, hv', heq⟩ := hwr
-  obtain ⟨r', hr', heqr⟩ := hrd (drv v')
+/-- **e2e_read**: a value the driver returned (`r`), exported by the node, sent in a `reply`, `changed` or `update`
+message and imported by the client with a result equal to `r` (round-trip law of C02, hypothesis `hrd`) is what the
+cache holds afterwards, stamped not later than the clock -/
+theorem e2e_read {t : Tables} (ht : TablesOk t) (mp : Maps) (imp : Str → Str → J → Option V)
+    (behave : Call V → Outcome) (c : Codecs V J) (eqv : V → V → Prop)
+    (action ident m p : Str) (s : State V) (now : Int) (tnode : TQ) (r : V)
+    (hact : action ∈ cacheActions) (hnoerr : action ∉ errorActions)
+    (hident : denoted mp action (some ident) = some (m, p)) (hparam : mp.isParam m p = true) (htq : tnode ≠ .bad)
+    (hrd : ∃ r', imp m p (c.wire (c.nodeExport r)) = some r' ∧ eqv r' r) :
+    ∃ r' ts, dictGet (rxStep t mp imp behave s now (.msg ⟨action, some ident, .value (c.wire (c.nodeExport r)) tnode⟩)).cache
+        (m, p) = some ⟨.value r', ts⟩ ∧ eqv r' r ∧ ts ≤ now := by
+  obtain ⟨r', hr', heqr⟩ := hrd
   obtain ⟨ts, hts⟩ : ∃ ts, clip now tnode = some ts := by cases tnode <;> simp_all [clip]
-  have hchanged : t.writeReply ∈ cacheActions := by rw [ht.2.2.2.1]; decide
-  have hnoerr : t.writeReply ∉ errorActions := by rw [ht.2.2.2.1]; decide
-  have heff : Effective t mp imp now ⟨t.writeReply, some ident, .value (c.wire (c.nodeExport (drv v'))) tnode⟩ m p
-      ⟨.value r', ts⟩ := ⟨hchanged, hident, hparam, by simp only [Imports]; exact ⟨hnoerr, hr', clip_stamp hts⟩⟩
+  have heff : Effective t mp imp now ⟨action, some ident, .value (c.wire (c.nodeExport r)) tnode⟩ m p
+      ⟨.value r', ts⟩ := ⟨hact, hident, hparam, by simp only [Imports]; exact ⟨hnoerr, hr', clip_stamp hts⟩⟩
   obtain ⟨a, ha, hm, hp⟩ := classify_effective ht heff
   have hacc := classify_accepted ht ha
   -- the accepted item is the import of the same data: value r', stamp ts
@@ -202,14 +195,77 @@ theorem e2e_write {t : Tables} (ht : TablesOk t) (mp : Maps) (imp : Str → Str 
         simp only at hcont hts'
         simp only [Option.some.injEq] at hx hts'
         rw [hcont, ← hx, ← hts']
-  simp only [e2eWrite, hj, hv', rxStep, ha]
+  simp only [rxStep, ha]
   have hcache := (updateValue_spec behave a.m a.p a.item s).1
   rw [hcache, hm, hp, dictGet_dictSet_self, hitem]
+  exact ⟨r', ts, rfl, heqr, stamp_le (clip_stamp hts)⟩
+
+/-- **e2e_write**: if the client's export, the wire and the node's import hand the driver a value equal to the caller's
+(round-trip law of C02, hypothesis `hwr`), and the way back satisfies the law of `e2e_read` (`hrd`), then after
+`setParameter` the driver has received a value equal to the caller's and the cache holds a value equal to the driver's
+answer, stamped not later than the clock — for every datatype, as far as it satisfies the two laws -/
+theorem e2e_write {t : Tables} (ht : TablesOk t) (mp : Maps) (imp : Str → Str → J → Option V)
+    (behave : Call V → Outcome) (c : Codecs V J) (drv : V → V) (eqv : V → V → Prop)
+    (ident m p : Str) (s : State V) (now : Int) (tnode : TQ) (v : V)
+    (hident : denoted mp t.writeReply (some ident) = some (m, p)) (hparam : mp.isParam m p = true)
+    (htq : tnode ≠ .bad)
+    (hwr : ∃ j v', c.clientExport v = some j ∧ c.nodeImport (c.wire j) = some v' ∧ eqv v' v)
+    (hrd : ∀ r, ∃ r', imp m p (c.wire (c.nodeExport r)) = some r' ∧ eqv r' r) :
+    let res := e2eWrite t mp imp behave c drv ident s now tnode v
+    WriteMirrors eqv drv v res.driverGot (dictGet res.state.cache (m, p)) ∧
+      ∀ it, dictGet res.state.cache (m, p) = some it → NotFuture now it := by
+  obtain ⟨j, v', hj, hv', heq⟩ := hwr
+  have hchanged : t.writeReply ∈ cacheActions := by rw [ht.2.2.2.1]; decide
+  have hnoerr : t.writeReply ∉ errorActions := by rw [ht.2.2.2.1]; decide
+  obtain ⟨r', ts, hget, heqr, hle⟩ := e2e_read ht mp imp behave c eqv t.writeReply ident m p s now tnode (drv v')
+    hchanged hnoerr hident hparam htq (hrd (drv v'))
+  simp only [e2eWrite, hj, hv']
+  rw [hget]
   refine ⟨⟨v', rfl, heq, r', ts, rfl, heqr⟩, ?_⟩
   intro it hit
   simp only [Option.some.injEq] at hit
   subst hit
-  exact stamp_le (clip_stamp hts)
+  exact hle
+
+/-- time stamps over a whole history: if the clock readings of the lines never exceed `T` and no entry of the starting
+cache is stamped later than `T`, no entry of the final cache is -/
+theorem timestamps_not_future_run {t : Tables} (ht : TablesOk t) (mp : Maps) (imp : Str → Str → J → Option V)
+    (behave : Call V → Outcome) (T : Int) (s : State V) (evs : List (Ev J))
+    (hclock : ∀ now l, Ev.line now l ∈ evs → now ≤ T)
+    (h0 : ∀ k it, dictGet s.cache k = some it → it.ts ≤ T) :
+    ∀ k it, dictGet (run t mp imp behave s evs).cache k = some it → it.ts ≤ T := by
+  induction evs generalizing s with
+  | nil => exact h0
+  | cons ev rest ih =>
+    have hrun : run t mp imp behave s (ev :: rest) = run t mp imp behave (step t mp imp behave s ev) rest := rfl
+    rw [hrun]
+    apply ih
+    · intro now l hm; exact hclock now l (List.mem_cons_of_mem _ hm)
+    · intro k it hk
+      rw [step_cache] at hk
+      cases ev with
+      | register r => exact h0 k it hk
+      | unregister r => exact h0 k it hk
+      | line now l =>
+        cases l with
+        | garbage => exact h0 k it hk
+        | msg msg =>
+          simp only at hk
+          cases hc : classify t mp imp now msg with
+          | ignored => rw [hc] at hk; exact h0 k it hk
+          | dropped => rw [hc] at hk; exact h0 k it hk
+          | accepted a =>
+            rw [hc] at hk
+            simp only at hk
+            by_cases hka : k = (a.m, a.p)
+            · rw [hka, dictGet_dictSet_self] at hk
+              simp only [Option.some.injEq] at hk
+              subst hk
+              have := timestamp_not_future ht hc
+              unfold NotFuture at this
+              exact Int.le_trans this (hclock now _ (List.mem_cons_self))
+            · rw [dictGet_dictSet_ne _ _ _ _ hka] at hk
+              exact h0 k it hk
 
 end
 
@@ -257,6 +313,21 @@ example : judge srcTables exMaps exImp exBehave (history srcTables exMaps exImp 
     judge srcTables exMaps exImp exBehave
       ((history srcTables exMaps exImp exBehave {} exEvs).map fun st =>
         (st.1, st.2.1.filter (fun c => c.reg.cb != 2), st.2.2)) = some 4 := by decide +kernel
+
+/-- the hypotheses of `e2e_write` are satisfiable: a codec that doubles on export and halves on import, a driver that
+answers `v + 1`; writing 7 hands the driver 7 and leaves 8 in the cache, stamped with the clipped time 10 -/
+example :
+    let res := e2eWrite srcTables exMaps (fun _ _ (j : Nat) => some (j / 2)) (fun _ => Outcome.ok)
+      ⟨fun v => some (v * 2), id, fun j => some (j / 2), fun r => r * 2⟩ (· + 1) "m:_p".toList {} 10 (.num 20) 7
+    WriteMirrors Eq (· + 1) 7 res.driverGot (dictGet res.state.cache ("m".toList, "p".toList)) ∧
+      ∀ it, dictGet res.state.cache ("m".toList, "p".toList) = some it → NotFuture 10 it :=
+  e2e_write tables_ok exMaps _ _ _ _ Eq "m:_p".toList "m".toList "p".toList {} 10 (.num 20) 7
+    (by decide +kernel) (by decide +kernel) (by decide)
+    ⟨14, 7, rfl, rfl, rfl⟩ (fun r => ⟨r, by simp, rfl⟩)
+
+example : (e2eWrite srcTables exMaps (fun _ _ (j : Nat) => some (j / 2)) (fun _ => Outcome.ok)
+      ⟨fun v => some (v * 2), id, fun j => some (j / 2), fun r => r * 2⟩ (· + 1) "m:_p".toList {} 10 (.num 20) 7).state.cache
+    = [(("m".toList, "p".toList), ⟨.value 8, 10⟩)] := by decide +kernel
 
 end example_
 
